@@ -474,8 +474,8 @@ func runC05(t *testing.T, spec RunSpec) *RunResult {
 		d := NewDeployment(w, cfg.Deploy)
 		proxies := map[uint16]*kgProxy{}
 		d.WrapKG = func(node uint16, kg tss.KeyGenerator) tss.KeyGenerator {
-			if node == cfg.Culprit {
-				return kg
+			if node == cfg.Culprit || cfg.Deploy.QuietLog {
+				return kg // (race-detector runs: no recording proxy, its lock would order the dispatcher goroutines)
 			}
 			p := &kgProxy{KeyGenerator: kg, node: node, w: w}
 			d.mu.Lock()
